@@ -15,3 +15,64 @@ pub open spec fn tbl_some<T>(v: Seq<Option<Rc<T>>>, i: usize) -> bool { i < v.le
 pub open spec fn tables_of(ctx: SemTypeContext) -> (Seq<Option<Rc<MappingAtomicType>>>, Seq<Option<Rc<ListAtomic>>>, Seq<Option<Rc<MappingAtomicType>>>, Seq<Option<Rc<ListAtomic>>>) {
     (ctx.mapping_definitions@, ctx.list_definitions@, ctx.map_definitions@, ctx.set_definitions@)
 }
+
+// ---- the memo wrapper of the object / Map decider, `mapping_is_empty_handle_recusrsion` (dnf.rs:120-161), on the REAL
+// context: the co-inductive cut and what may be memoised (F8)
+// T2 (assumed): the derived `Ord` on `Rc<Vec<Conjunction>>` is a lawful total order (what vstd's BTreeMap
+// specifications ask of the key type)
+#[verifier::external_body]
+pub proof fn axiom_rcdnf_cmp()
+    ensures vstd::laws_cmp::obeys_cmp::<Rc<Dnf>>()
+{}
+// every entry present at entry is still there, unchanged, at exit (entries met again are answered from the table;
+// only entries a call adds itself are ever rewritten or removed)
+pub open spec fn memo_kept<K>(o: Map<K, BddMemoEmptyRef>, n: Map<K, BddMemoEmptyRef>) -> bool {
+    forall|k: K| #![trigger o.contains_key(k)] #![trigger n.contains_key(k)] o.contains_key(k) ==> n.contains_key(k) && n[k] == o[k]
+}
+// the answer a memo entry stands for: a diagram met again while it is being decided counts as empty
+pub open spec fn memo_answer(e: MemoEmpty) -> IsEmptyStatus {
+    match e { MemoEmpty::True => IsEmptyStatus::IsEmpty, MemoEmpty::False(ev) => ev, MemoEmpty::Undefined => IsEmptyStatus::IsEmpty }
+}
+// the state the decider proper is started in: the diagram marked "in progress", one more check pending, nothing else touched
+pub open spec fn memo_started(o: SemTypeContext, c: SemTypeContext, dnf: Rc<Dnf>) -> bool {
+    c.pending_empty_checks == o.pending_empty_checks + 1
+    && c.mapping_memo_dnf@ == o.mapping_memo_dnf@.insert(dnf, BddMemoEmptyRef(MemoEmpty::Undefined))
+    && tables_of(c) == tables_of(o)
+}
+// R5 (contract-only, ASSUMED): the decider proper (U8 proves its reduction on the opaque context); here: it leaves the
+// number of pending checks, the entries of the memo table it was started with and the definition tables as they were
+pub uninterp spec fn mie_res(dnf: Dnf, is_map: bool, c: SemTypeContext) -> Result<IsEmptyStatus>;
+#[verifier::external_body]
+fn mapping_is_empty_impl(dnf: Rc<Dnf>, ctx: &mut SemTypeContext, is_map: bool) -> (r: Result<IsEmptyStatus>)
+    ensures final(ctx).pending_empty_checks == old(ctx).pending_empty_checks,
+        memo_kept(old(ctx).mapping_memo_dnf@, final(ctx).mapping_memo_dnf@),
+        tables_of(*final(ctx)) == tables_of(*old(ctx)),
+        r == mie_res(*dnf, is_map, *old(ctx)),
+{ unimplemented!() }
+// R23: `M.get_mut(K).expect(MSG).0 = E;`
+#[verifier::external_body]
+fn vmemo_set<K: Ord>(m: &mut BTreeMap<K, BddMemoEmptyRef>, k: &K, e: MemoEmpty)
+    requires old(m)@.contains_key(*k)
+    ensures final(m)@ == old(m)@.insert(*k, BddMemoEmptyRef(e))
+{ m.get_mut(k).expect("bdd should be cached by now").0 = e; }
+// what the wrapper does with the table (o: at entry, n: at exit)
+pub open spec fn memo_post(dnf: Rc<Dnf>, is_map: bool, o: SemTypeContext, n: SemTypeContext, res: Result<IsEmptyStatus>) -> bool {
+    if o.mapping_memo_dnf@.contains_key(dnf) {
+        // met again: answered from the table, nothing written
+        res == Ok::<IsEmptyStatus, Error>(memo_answer(o.mapping_memo_dnf@[dnf].0)) && n.mapping_memo_dnf@ == o.mapping_memo_dnf@
+    } else {
+        (exists|c: SemTypeContext| memo_started(o, c, dnf) && res == #[trigger] mie_res(*dnf, is_map, c))
+        && (match res {
+            // "empty" reached while an enclosing check is still running is provisional: NOT memoised
+            Ok(IsEmptyStatus::IsEmpty) => if o.pending_empty_checks > 0 { !n.mapping_memo_dnf@.contains_key(dnf) }
+                                          else { n.mapping_memo_dnf@.contains_key(dnf) && n.mapping_memo_dnf@[dnf].0 is True },
+            Ok(IsEmptyStatus::NotEmpty) => n.mapping_memo_dnf@.contains_key(dnf) && n.mapping_memo_dnf@[dnf].0 == MemoEmpty::False(IsEmptyStatus::NotEmpty),
+            // an error leaves no "in progress" marker behind
+            Err(_) => !n.mapping_memo_dnf@.contains_key(dnf),
+        })
+    }
+}
+
+// (`list_is_empty`, bdd.rs:543-583, is the same wrapper around the list decider; it stays OUT: its table is keyed by `Bdd`,
+// the key is made with `(**bdd).clone()`, and this Verus gives the `Clone` derived on an enum declared inside `verus!`
+// no specification and accepts none - the inserted key could not be related to the diagram. Bounded stand-in: `memo`.)
